@@ -455,6 +455,9 @@ func (a *authSim) creds() []cred {
 		{"lowercase-scheme", "bearer " + a.admin},
 		{"extra-parts", "Bearer " + a.admin + " x"},
 		{"no-space", "Bearer" + a.admin},
+		{"bearer-only", "Bearer"},
+		{"bearer-blank", "Bearer "},
+		{"bearer-two-blanks", "Bearer  " + a.admin},
 		{"unknown", "Bearer not-a-token"},
 		{"admin", "Bearer " + a.admin},
 		// near misses of the admin token
@@ -569,6 +572,24 @@ func (a *authSim) sweep() {
 				}
 				if a.digests() != before {
 					r.Fail("C09", "state-changed-by-rejected-request", sig, "%s %s with credential %q was rejected but changed tokens/webhooks/headers", rt.Method, path, c.name)
+				}
+				// the same request with its prefix spelt differently (percent-encoded characters): whatever the router
+				// makes of it, it is not a way around the check
+				if c.name == "none" || c.name == "unknown" {
+					for _, alt := range []string{strings.Replace(path, "/api/", "/%61pi/", 1), strings.Replace(path, "/v1", "/v%31", 1), strings.Replace(path, "/api/v1/", "/api%2Fv1/", 1)} {
+						if alt == path {
+							continue
+						}
+						before2 := a.digests()
+						code2, body2 := w.HTTP(rt.Method, alt, nil, hdr)
+						r.Count("sweep_requests")
+						if code2 != 401 && code2 != 404 && code2 != 400 && code2 != 405 && code2 != 301 && code2 != 307 {
+							r.Fail("C09", "not-rejected", sig+"|encoded-prefix", "%s %s (the route %s with an encoded prefix) with credential %q -> %d %s, expected a refusal", rt.Method, alt, rt.Path, c.name, code2, truncate(string(body2), 120))
+						}
+						if a.digests() != before2 {
+							r.Fail("C09", "state-changed-by-rejected-request", sig+"|encoded-prefix", "%s %s with credential %q changed tokens/webhooks/headers", rt.Method, alt, c.name)
+						}
+					}
 				}
 			} else {
 				if code == 401 {
